@@ -16,6 +16,17 @@ CHECKS = {
         note=TB + " Goroutine schedules outside the gated parser are sampled; the race detector is trusted as an observer.",
         technique="TLA+ interleaving model + TLC, deterministic schedule replay through a build-tag hook, trace validation of extraction histories",
     ),
+    "C06": dict(
+        text="PdfSyntax.tla is the PDF object syntax as a writer: a pushdown generator of well-nested token sequences and "
+             "Spell(tokens, policy) giving the bytes for every legal spelling policy (white-space kinds incl. comments, EOL kinds, "
+             "five string styles, two name styles). TLC enumerates all sequences within the bounds and emits (tokens, policy, bytes); "
+             "the bytes are parsed by core.Parser and contentstream.Parser and the flattened result must equal the tokens (and so "
+             "each other). Random depth-4 trees spelled by an independent Go speller are validated against Spell by "
+             "PdfSyntaxTrace.tla (bytes and parse verdict bound).",
+        design_ref="4.6",
+        note=TB + " The spelling policies are the legal-spelling catalogue of the property; byte-level fuzzing is out of scope.",
+        technique="TLA+ writer specification enumerated by TLC, round-trip replay through both parsers, trace validation of an independent speller",
+    ),
     "C08": dict(
         text="GState.tla is the ISO 32000 graphics/text-state machine (one action per operator). TLC checks its invariants "
              "exhaustively (all programs to a bounded length over a 21-operator alphabet, and refutes the post-multiplying "
